@@ -96,6 +96,10 @@ EvTravEnd == /\ Is("e") /\ E.op \in {"v", "f"} /\ trav[E.t].on
              /\ \A n \in DOMAIN addEnd : (addEnd[n] # 0 /\ addEnd[n] < trav[E.t].at /\ Get(remBegin, n) = 0) => InSeq(trav[E.t].seen, n)
              /\ travs' = travs \cup {trav[E.t].seen} /\ trav' = [trav EXCEPT ![E.t] = NoTrav]
              /\ UNCHANGED <<cfgs, addEnd, remBegin, remEnd, init0>>
+\* calls on another event of the same dispatcher (they share the map with event 1): no effect on event 1's list; a thread removing the
+\* listener it added itself to that event must succeed
+EvOther == /\ (Is("b") \/ Is("e")) /\ E.op \in {"x", "y", "z"} /\ (E.e = "e" /\ E.op = "y" => E.r = 1)
+           /\ UNCHANGED <<cfgs, addEnd, remBegin, remEnd, trav, travs, init0>>
 EvFin == Is("fin") /\ UNCHANGED <<cfgs, addEnd, remBegin, remEnd, trav, travs, init0>>
 
 \* ---- after the join: the final order (E.s = ids as a sequence) is the list of a surviving configuration, visits respected the order
@@ -107,7 +111,7 @@ EvFinal == /\ Is("fl")
 EvReset == /\ Is("rs") /\ E.a = 0
            /\ cfgs' = {} /\ addEnd' = <<>> /\ remBegin' = <<>> /\ remEnd' = <<>> /\ trav' = [t \in Threads |-> NoTrav] /\ travs' = {} /\ init0' = <<>>
 
-Next == EvInit \/ EvStart \/ EvBegin \/ EvEnd \/ EvTravBegin \/ EvVisit \/ EvTravEnd \/ EvFin \/ EvFinal \/ EvReset
+Next == EvInit \/ EvStart \/ EvOther \/ EvBegin \/ EvEnd \/ EvTravBegin \/ EvVisit \/ EvTravEnd \/ EvFin \/ EvFinal \/ EvReset
 
 Report == IF TLCGet("stats").diameter - 1 = Len(TraceLog) THEN TRUE
           ELSE PrintT(<<"REJECTED", TLCGet("stats").diameter, Len(TraceLog)>>) /\ FALSE
